@@ -246,6 +246,17 @@ def check_file(data, layout, obs, tag, rng=None, cut_stride=1):
         return
     obs.count('base_files')
     fid = common_fid(data)
+    if fid % 4 == 0:
+        # the same file, and the same file cut short, through real streams
+        kinds = common.STREAM_KINDS if fid % 8 == 0 else ('gzip', 'file')
+        if common.check_real_streams(data, obs, {'file': data,
+                                                 'real_streams': True},
+                                     kinds):
+            for c in sorted(set([len(data) - 1, len(data) // 2,
+                                 (fid >> 8) % (len(data) + 1)])):
+                common.check_real_streams(
+                    data[:c], obs, {'file': data[:c], 'real_streams': True},
+                    ('gzip', 'file_unbuffered'))
     first_content = next((s['hoff'] for s in layout if 'coff' in s),
                          len(data))
     n = 0
@@ -411,9 +422,12 @@ def check_big(doc, obs):
 def run(ctx):
     obs = ctx.obs
     rng = ctx.rng
-    from mon.props.c01 import special_docs
+    from mon.props.c01 import special_docs, huge_docs
     for i, d in enumerate(special_docs()[:35]):
         if ctx.mine(i):
+            check_big(d, obs)
+    for i, d in enumerate(huge_docs(ctx.quick)):
+        if ctx.mine(i + 11):
             check_big(d, obs)
     nfiles = ctx.share(ctx.pick(96, 5000))
     done = 0
@@ -433,6 +447,8 @@ def run(ctx):
 def replay(case, obs):
     from mon.oracle import scanner
     data = case['file']
+    if case.get('real_streams'):
+        return common.check_real_streams(data, obs, case)
     # rebuild a layout-like view of the intact file by reading it with the
     # real reader (the witness carries the bytes, not the recipe)
     intact, exc, _ = common.read_records(data)
